@@ -587,8 +587,14 @@ Proof. eexists. split; reflexivity. Qed.
 Lemma trace_eqb_refl : forall a, trace_eqb a a = true.
 Proof. apply list_eqb_refl. apply list_eqb_refl. apply N.eqb_refl. Qed.
 
+(* with the original empty memclr stubs the clear witness loses a key ... *)
 Lemma clear_refuted_witness :
-  trace_eqb (run_history_obs witness_clear) (spec_run [] (snd witness_clear)) = false.
+  trace_eqb (run_history_obs (witness_clear false)) (spec_run [] (snd (witness_clear false))) = false.
+Proof. vm_compute. reflexivity. Qed.
+
+(* ... with memclr implemented the same history gives the results of the specification *)
+Lemma clear_fixed_witness :
+  trace_eqb (run_history_obs (witness_clear true)) (spec_run [] (snd (witness_clear true))) = true.
 Proof. vm_compute. reflexivity. Qed.
 
 Lemma nan_clear_witness :
@@ -599,10 +605,17 @@ Lemma neq_of_trace_eqb a b : trace_eqb a b = false -> a <> b.
 Proof. intros H E. subst b. rewrite trace_eqb_refl in H. discriminate. Qed.
 
 Lemma clear_refuted : exists x : config * list op,
-  c_nil (fst x) = false /\ run_history_obs x <> spec_run [] (snd x).
+  c_nil (fst x) = false /\ c_memclr (fst x) = false /\ run_history_obs x <> spec_run [] (snd x).
 Proof.
-  exists witness_clear. split; [reflexivity|]. apply neq_of_trace_eqb. exact clear_refuted_witness.
+  exists (witness_clear false). split; [reflexivity|]. split; [reflexivity|].
+  apply neq_of_trace_eqb. exact clear_refuted_witness.
 Qed.
+
+Lemma trace_eqb_eq a b : trace_eqb a b = true -> a = b.
+Proof. apply list_eqb_eq. intros x y. apply list_eqb_eq. intros u v. apply N.eqb_eq. Qed.
+
+Lemma clear_fixed : run_history_obs (witness_clear true) = spec_run [] (snd (witness_clear true)).
+Proof. apply trace_eqb_eq. exact clear_fixed_witness. Qed.
 
 Lemma nan_clear_refuted : exists x : config * list op,
   yields_present [] (snd x) (run_history x) = false.
